@@ -304,6 +304,22 @@ func cloneExpr(expr Expression) Expression {
 			Alternatives: alts,
 			p:            expr.p,
 		}
+	case *AnyMatcher:
+		return &AnyMatcher{
+			posValue: expr.posValue,
+		}
+	case *LitMatcher:
+		// literals are merged in place by the sequence optimization, so every
+		// inlined copy needs its own node
+		return &LitMatcher{
+			posValue:   expr.posValue,
+			IgnoreCase: expr.IgnoreCase,
+		}
+	case *RuleRefExpr:
+		return &RuleRefExpr{
+			Name: expr.Name,
+			p:    expr.p,
+		}
 	case *LabeledExpr:
 		return &LabeledExpr{
 			Expr:  cloneExpr(expr.Expr),
